@@ -928,11 +928,25 @@ func (e *Env) putBits(n *contract.Call) Val {
 	at := e.evalInt(n.Args[1])
 	v := e.evalInt(n.Args[2])
 	w := e.evalInt(n.Args[3])
-	if k, ok := w.Int64(); ok && k <= 64 {
-		r := m.T
-		for i := int64(0); i < k; i++ {
-			r = term.Store(r, term.Add(at, term.I(i)), bitOfInt(v, term.I(k-1-i)))
+	var fixed func(w *T) *T
+	fixed = func(w *T) *T {
+		if k, ok := w.Int64(); ok && k <= 64 {
+			r := m.T
+			for i := int64(0); i < k; i++ {
+				r = term.Store(r, term.Add(at, term.I(i)), bitOfInt(v, term.I(k-1-i)))
+			}
+			return r
 		}
+		if w.Op == term.OIte {
+			// a width chosen among constants (e.g. the character count field of a QR version class)
+			a, b := fixed(w.Args[1]), fixed(w.Args[2])
+			if a != nil && b != nil {
+				return term.Ite(w.Args[0], a, b)
+			}
+		}
+		return nil
+	}
+	if r := fixed(w); r != nil {
 		return VMath{r}
 	}
 	na := term.Fresh("putbits", m.T.Sort)
